@@ -152,8 +152,9 @@ let parse_dump (toks : string list) : dump =
 (* an edge of a model store, kind independent: terminal description or store index, tag *)
 type gref = GTerm of string | GNode of int
 
-(* isomorphism between a model store/roots (nodes = level and children, any arity) and the dump *)
-let check_iso_g (store : (int * (gref * bool) list) list) (roots : (gref * bool) list) (d : dump) : unit =
+(* isomorphism between a model store/roots (nodes = level and children, any arity) and the dump
+   (the former hand-written comparison; since GLUE it only words the message when the extracted checker rejects) *)
+let check_iso_hand (store : (int * (gref * bool) list) list) (roots : (gref * bool) list) (d : dump) : unit =
   let term_id = Hashtbl.create 8 and inner_id = Hashtbl.create 64 in
   List.iter
     (fun (id, nd) -> match nd with DT s -> Hashtbl.replace term_id s id | DI (l, cs) -> Hashtbl.replace inner_id (l, cs) id)
@@ -187,6 +188,55 @@ let check_iso_g (store : (int * (gref * bool) list) list) (roots : (gref * bool)
     corr "model roots [%s] <> dump roots [%s]"
       (String.concat "," (List.map string_of_int mroots))
       (String.concat "," (List.map string_of_int d.droots))
+
+(* GLUE: both diagrams are lifted into node tables of coq/DD/Table.v (store index i -> id i+1; dump id -> id+1; a
+   terminal = its description, interned into one code table for both sides; the sign of a dump child = the tag) and
+   the EXTRACTED, PROVED checker [Model.iso_core] of coq/DD/IsoCheck.v decides (onto, no fixed ids, the roots in order:
+   C20_iso_check_sound / _complete).  Statistic [iso_disagree]: the checker rejects and the hand-written comparison
+   finds nothing (GLUE_CROSS=1: or accepts where the hand-written comparison fails). *)
+let glue_cross = Sys.getenv_opt "GLUE_CROSS" <> None
+let check_iso_g (store : (int * (gref * bool) list) list) (roots : (gref * bool) list) (d : dump) : unit =
+  let codes : (string, int) Hashtbl.t = Hashtbl.create 8 in
+  let code (desc : string) : Model.n =
+    n_of_int (match Hashtbl.find_opt codes desc with
+              | Some c -> c
+              | None -> let c = Hashtbl.length codes in Hashtbl.add codes desc c; c) in
+  let dterm : (int, string) Hashtbl.t = Hashtbl.create 8 in
+  List.iter (fun (id, nd) -> match nd with DT s -> Hashtbl.replace dterm id s | DI _ -> ()) d.dnodes;
+  let pos (i : int) = pos_of_z (Z.of_int (i + 1)) in
+  let medge ((r, tag) : gref * bool) : Model.edge =
+    { Model.eref = (match r with GTerm desc -> Model.RT (code desc) | GNode i -> Model.RN (pos i)); Model.etag = tag } in
+  let dedge (c : int) : Model.edge =
+    let id = abs c in
+    { Model.eref = (match Hashtbl.find_opt dterm id with Some s -> Model.RT (code s) | None -> Model.RN (pos id));
+      Model.etag = c < 0 } in
+  let maxl = List.fold_left (fun m (l, _) -> max m l) 0 store in
+  let maxl = List.fold_left (fun m (_, nd) -> match nd with DI (l, _) -> max m l | DT _ -> m) maxl d.dnodes in
+  let lv = List.init (maxl + 1) nat_of_int in
+  let mk nodes =
+    { Model.s_kind = Model.KBdd; Model.s_nodes = nodes; Model.s_terms = []; Model.s_v2l = lv; Model.s_l2v = lv;
+      Model.s_handles = [] } in
+  let node l ch = { Model.nlevel = nat_of_int l; Model.nchildren = ch; Model.nstored = nat_of_int l; Model.nrc = Model.N0 } in
+  let _, mn =
+    List.fold_left
+      (fun (i, m) (l, ch) -> (i + 1, Model.PositiveMap.add (pos i) (node l (List.map medge ch)) m))
+      (0, Model.PositiveMap.empty) store in
+  let dn =
+    List.fold_left
+      (fun m (id, nd) -> match nd with DI (l, cs) -> Model.PositiveMap.add (pos id) (node l (List.map dedge cs)) m | DT _ -> m)
+      Model.PositiveMap.empty d.dnodes in
+  stat "iso_extracted_checks" 1;
+  stat "iso_disagree" 0;
+  let accepted =
+    List.length roots = List.length d.droots
+    && Model.iso_core false true (fun _ -> false) (mk mn) (mk dn) (List.map2 (fun a b -> (medge a, dedge b)) roots d.droots) <> None in
+  if accepted then begin
+    if glue_cross then (try check_iso_hand store roots d with Bad (k, m) -> stat "iso_disagree" 1; raise (Bad (k, m)))
+  end else begin
+    check_iso_hand store roots d;      (* raises with the message *)
+    stat "iso_disagree" 1;
+    corr "the extracted checker IsoCheck.iso_core rejects: the model's reading is not isomorphic to the dump of the real diagram (the hand-written comparison finds no difference)"
+  end
 
 let check_iso (dd : string) (store : Model.cnode list) (roots : Model.cedge list) (d : dump) : unit =
   let g (e : Model.cedge) =
